@@ -67,6 +67,9 @@ func RunCLI(c *mon.Ctx, b Binary, args []string, stdin string, files map[string]
 		cmd.Process.Kill()
 		<-done
 		res.Timeout = true
+		// a wall-clock deadline is never a verdict: the case is abandoned as inconclusive
+		c.Inconclusive("CLI run hit the 60 s watchdog: " + b.Name + " " + strings.Join(args, " "))
+		panic(mon.Unjudged("cli watchdog"))
 	}
 	res.Status = cmd.ProcessState.ExitCode()
 	res.Stdout, res.Stderr = so.String(), se.String()
